@@ -105,7 +105,9 @@ func runHops(t *testing.T, hp hopProto, ttls []int) sim.Result {
 		}
 		for _, ttl := range ttls {
 			if err := sock.SetOption(mangos.OptionTTL, ttl); err != nil {
-				panic(err)
+				// every value the grids use is in 1..255: a refusal is for the specification to judge, not a driver fault
+				s.Rec.Emit("httl", "proto", hp.name, "ttl", ttl, "r", err)
+				continue
 			}
 			if hp.kind == "bt" {
 				for n := 0; n <= ttl+2; n++ {
